@@ -184,6 +184,9 @@ def check_statedb(pid, tier, seed, replay):
     w = Work(pid)
     try:
         if replay:
+            if os.path.exists(os.path.join(replay, "vectors.ndjson")):
+                import checks_cpc
+                return checks_cpc.c03_replay(replay)
             if os.path.exists(os.path.join(replay, "programs.json")):
                 r = checks_ethtx.validate_dir_copy(w, replay, FOCUS_TX[pid])
             else:
@@ -202,6 +205,17 @@ def check_statedb(pid, tier, seed, replay):
         covtx, _ = checks_ethtx.ethtx_binding(v, pid, w, FOCUS_TX[pid], sz["tx"], seed, corrupt_fn=None, tag="tx")
         v.cov["distinct_nontrivial"] = nontrivial
         v.cov["classes"] = dict(cov, **covtx)
+        if pid == "C03":
+            # stateful precompile calls inside failing / completing call frames (RevertTree.tla, executed as real transactions)
+            import checks_cpc
+            rv = checks_cpc.c03_revert_vectors(v, w, tier, seed, pid)
+            v.cov["states"] += rv.get("states", 0)
+            v.cov["transitions"] += rv.get("transitions", 0)
+            v.cov["traces_validated_against_impl"] += rv.get("accepted", 0)
+            v.cov["evaluations"] += rv.get("vectors", 0)
+            v.cov["distinct_nontrivial"] += rv.get("distinct_nontrivial", 0)
+            v.cov["classes"].update({"revert-tree." + str(k): n for k, n in (rv.get("classes") or {}).items()})
+            v.cov["revert_tree"] = {"rule": rv.get("rule"), "selftest": rv.get("selftest")}
         v.cov["rule"] = ("seeded random operation sequences on the real StateDB (vm.StateDB interface, writes of other modules through "
                          "GetCurrentContext, nested Snapshot/RevertToSnapshot, Commit/Discard; accounts of every kind), every getter "
                          "observed after every operation; non-trivial = traces with >= 4 operations containing a revert or a commit; "
